@@ -339,7 +339,7 @@ func indexKind(k types.FloatKind) int {
 }
 
 func genC16(ctx *fw.Ctx) []fw.Case {
-	n := ctx.Pick(200, 3000)
+	n := ctx.Pick(200, 20000)
 	var cases []fw.Case
 	for i := 0; i < n; i++ {
 		i := i
